@@ -53,7 +53,7 @@ def rule_symmetric(program, ctx):
         "for every INDEXES class with keys in the LMDB keyspace: clear resolves to Index.clear = self.write(event, txn, operation=\"delete\"); "
         "Index.write applies getattr(txn, operation) to the same key expression for both operations; IdIndex.write uses self.to_key(event.id) "
         "for put and delete; convert/to_key read nothing but their arguments and self.prefix (no clock/config/global/cache decorator)",
-        floor=10,
+        floor=5,
     )
     base_clear = program.func("nostr_relay.storage.kv:Index.clear")
     base_write = program.func("nostr_relay.storage.kv:Index.write")
@@ -130,7 +130,7 @@ def rule_samelist(program, ctx):
         "C10.samelist",
         "WriterThread: the add loop iterates `self.write_indexes` calling index.write(event, txn); _delete_event iterates the same attribute "
         "calling index.clear(event, txn); write_indexes = every enabled member of INDEXES (IdIndex included, enabled by default)",
-        floor=3,
+        floor=2,
     )
     run = program.func("nostr_relay.storage.kv:WriterThread.run")
     de = program.func("nostr_relay.storage.kv:WriterThread._delete_event")
@@ -177,7 +177,7 @@ def rule_callers(program, ctx):
         "`.clear(event, txn)` of an index only from WriterThread._delete_event; `_delete_event` only from the writer's transaction; "
         "index-only writes (writer operations 'reindex' / 'bulk_update', LMDBStorage.reindex) are requested only for the constant index name "
         "\"search\" (an index outside the keyspace): re-indexing a keyspace index races with deletions and leaves dangling entries",
-        floor=3,
+        floor=1,
     )
     kv = program.module("nostr_relay.storage.kv")
     for c in ast.walk(kv.tree):
@@ -208,7 +208,7 @@ def rule_keyspace(program, ctx):
         "key-space table: every keyspace index class has a one-byte prefix; prefixes are pairwise distinct and sort below the tombstone key "
         "written by write_tombstone; setup() calls write_tombstone() before writer_thread.start(); TagIndex.convert indexes one-character tag "
         "names plus 'expiration' and 'delegation' (what REQ '#x' filters and the garbage collector look up)",
-        floor=8,
+        floor=2,
     )
     prefixes = {}
     for name, ci, node in registry(program):
